@@ -470,9 +470,7 @@ U("src.deregister", src="units/src_unit.c", harness="h_deregister_mod_src", enfo
   replace=["m_mod_is", "m_ctx", "fetch_ms", "m_bst_remove"], props=["C09", "C18", "C04"], contract_files=SRCC, native=False, timeout=250, min_obligations=20)
 U("src.create", src="units/src_unit.c", harness="h_create_src", enforce="create_src", defines=["V_CREATESRC_UNIT"], logctx="CORE",
   replace=["m_mem_new", "v_dup", "mem_strdup", "m_mem_unrefp"], props=["C09", "C13", "C03", "C20", "C04"], contract_files=SRCC, native=False, timeout=250, min_obligations=20)
-U("src.len", src="units/src_unit.c", harness="h_src_len", plain=True, logctx="CORE", bounded=True, defines=["V_SRCLEN_UNIT"],
-  bound_note="real m_mod_src_len() over executable stub iterators (each element once, in order); every combination of <= 2 sources per kind (8 kinds) and internal flags; loops unwound with unwinding assertions",
-  unwind=10, props=["C09", "C04"], contract_files=[], native=False, timeout=300, min_obligations=5)
+# (the bounded stand-in src.len -- stub iterators, <= 2 sources per kind -- was replaced by the unbounded loop-contract unit src.len_u once the loops of m_mod_src_len() were named: hook b6b3d93)
 U("ps.pill_real", src="units/ps_real.c", harness="h_pill_real", plain=True, logctx="CORE",
   props=["C08", "C04"], contract_files=[], native=True, timeout=300, min_obligations=20, unwind=42)
 
@@ -589,3 +587,10 @@ U("mod.manage_srcs", src="units/mod_unit.c", harness="h_manage_srcs", enforce="m
 
 PROPS["C09"]["level_text"] += (" manage_srcs() (two nested loop contracts, any number of sources per kind): a stop empties every per-kind set (each source removed exactly once, pending messages of the "
                                "module destroyed), start/resume/pause leave the registry exactly as it is and add / remove every registered source to / from the poll set exactly once.")
+U("src.len_u", src="units/src_unit.c", harness="h_src_len_u", enforce="m_mod_src_len", loop_contracts=True, defines=["V_SRCLENU_UNIT"], logctx="CORE",
+  replace=["m_ctx", "m_mod_is", "m_map_itr_new", "m_map_itr_next", "m_map_itr_get_data", "m_bst_itr_new", "m_bst_itr_next", "m_bst_itr_get_data"],
+  props=["C09", "C04"], contract_files=ABS + ["contracts/srclen.contracts.h"], native=False, timeout=600, min_obligations=30, must_have=["invariant after step"], unwindset={"h_src_len_u.0": 9})
+
+PROPS["C09"]["level_text"] = PROPS["C09"]["level_text"].replace("m_mod_src_len() is a BOUNDED stand-in (<= 2 sources per kind, stub iterators): the count for one kind is the size of that kind's set, internal sources excluded.",
+    "m_mod_src_len() (three loop contracts over abstract iterators, any number of sources): exactly the elements of the set(s) asked for are examined, each once, and the answer is the number of those that are not library-internal.")
+PROPS["C09"]["not_decided"] = ["that the BST behind the abstract keyed set is a set for > K nodes (C11 is bounded)", "m_mod_ps_unsubscribe", "one-shot removal in recv_events for batches of more than 2 events (bounded stand-in)"]
